@@ -160,8 +160,9 @@ def check(run):
                               {"kind": "lock-not-released", "db": path, "scenario": "%s inside Select's callback" % nested, "probe": got, "writer": wr})
     # an RLock that fails must hold nothing afterwards: another process has one of the lock regions; every entry point fails; the
     # process holds no lock of its own (a leaked read lock on PENDING would keep every writer out for good)
-    for region in ("shared", "pending"):
-        start, ln = lk.REGIONS[region]
+    regions = dict(lk.REGIONS, all=(lk.PENDING, 512))        # all: one merged lock over PENDING..SHARED, as a writer in EXCLUSIVE holds it
+    for region in ("shared", "pending", "all"):
+        start, ln = regions[region]
         holder = subprocess.Popen([sys.executable, "-c",
                                    "import fcntl,os,sys\nfd=os.open(sys.argv[1],os.O_RDWR)\nfcntl.lockf(fd,fcntl.LOCK_EX|fcntl.LOCK_NB,%d,%d,0)\nprint('held',flush=True)\nsys.stdin.readline()\n" % (ln, start), path],
                                   stdin=subprocess.PIPE, stdout=subprocess.PIPE, stderr=subprocess.DEVNULL)
@@ -178,7 +179,7 @@ def check(run):
                 run.violation("%s while another process holds a write lock on the %s region: no error (%s)" % (cmd, region, o[-2:]),
                               {"kind": "rlock-not-refused", "db": path, "command": cmd, "region": region, "impl": o[-3:]})
             got = lk.probe(path)
-            mine = {r: v for r, v in got.items() if r != region}
+            mine = {r: v for r, v in got.items() if r != region and region != "all"}
             if any(v != "-" for v in mine.values()):
                 run.violation("%s failed because another process holds the %s region; afterwards the reader's process still holds a lock: %s" % (cmd, region, lk.show(got)),
                               {"kind": "lock-leak-after-failed-rlock", "db": path, "command": cmd, "region": region, "probe": lk.show(got)})
@@ -187,6 +188,41 @@ def check(run):
         if got != exp_after or wr != "committed":
             run.violation("after reads that failed on a held %s region and the holder's release, another process sees [%s]; a writer's COMMIT is '%s'" % (region, got, wr),
                           {"kind": "lock-leak-after-failed-rlock", "db": path, "region": region, "probe": got, "writer": wr})
+        # ... and the SAME handle's next read really holds SHARED again (whatever the refused attempts left in the handle)
+        run.count()
+        core.session_send(impl, "hold normal select t a,b")
+        lines = core.session_read_until(impl, lambda l: l == "paused" or l.startswith("held"))
+        if lines[-1] == "paused":
+            got = lk.show(lk.probe(path)); wr = lk.try_commit(path)
+            core.session_send(impl, "resume")
+            core.session_read_until(impl, lambda l: l.startswith("held"))
+            if got != exp_locked or wr != "locked":
+                run.violation("the read after reads that were refused on a held %s region: inside its callback another process sees [%s] (model: [%s]); a writer's COMMIT is '%s'" % (region, got, exp_locked, wr),
+                              {"kind": "lock-not-held", "db": path, "scenario": "refused reads while another process held %s; release; hold select" % region, "probe": got, "writer": wr})
+        else:
+            run.violation("the read after reads that were refused on a held %s region does not deliver rows: %s" % (region, lines[-1:]),
+                          {"kind": "lock-state-after-refusal", "db": path, "region": region, "impl": lines[-3:]})
+    # a read that fails AFTER the lock was taken (the file's header has become one the library must refuse: another process
+    # switched the database to WAL) must release the lock on its way out, through every entry point
+    import sqlite3 as _sq
+    c = _sq.connect(path, isolation_level=None); mode = c.execute("PRAGMA journal_mode=WAL").fetchone()[0]; c.execute("INSERT INTO t VALUES(424242, 'wal')"); c.close()
+    dist["refused_header"] = 0
+    if mode == "wal":
+        for cmd in ("select t 0 a", "selectrowid t 1 a", "iselect t t_a a", "iselecteq t t_a i3 a", "pkselect t i1 a", "columns t"):
+            run.count(); dist["refused_header"] += 1
+            o = impl.cmd(cmd)
+            failed = any(l.startswith(("end err", "err ", "columns err")) or " err" in l for l in o)
+            got = lk.show(lk.probe(path))
+            if got != exp_after:
+                run.violation("%s on a handle whose file was switched to WAL by another process (%s): after the call returned another process sees [%s] - the read lock was not released" % (cmd, "refused" if failed else "not refused", got),
+                              {"kind": "lock-not-released", "db": path, "scenario": "long-lived handle; PRAGMA journal_mode=WAL elsewhere; " + cmd, "probe": got, "impl": o[-2:]})
+                break
+        c = _sq.connect(path, isolation_level=None)
+        try:
+            c.execute("PRAGMA journal_mode=DELETE")
+        except _sq.OperationalError as e:
+            run.notes.append("could not switch back from WAL: %s" % e)
+        c.close()
     impl.close(); model.close()
     run.cov["traces_validated_against_impl"] = dist["probes"]
     run.cov["rule"] = ("a real file, the real pager, real POSIX locks: every select-like entry point (Select, SelectDone, SelectRowid, IndexedSelect, IndexedSelectEq, PKSelect on rowid / "
